@@ -189,6 +189,13 @@ def mk_arg(spec):
         return Headers([tuple(p) for p in data])
     if kind == "none":
         return None
+    if kind == "mdstate":
+        md = MultiDict()
+        for k, l in data:
+            md.setlist(k, list(l))          # setlist(k, []) leaves the key with no values
+        return md
+    if kind == "cmbstate":
+        return CombinedMultiDict([mk_arg(("mdstate", d)) for d in data])
     raise core.Broken(f"unknown arg spec {kind}")
 
 
@@ -211,6 +218,10 @@ def arg_pairs(spec, arg=None):
         return [(k, x) for k, l in g.items() for x in l]
     if kind == "none":
         return []
+    if kind == "mdstate":
+        return [(k, x) for k, v in data for x in v]         # a key without values contributes nothing
+    if kind == "cmbstate":
+        return [(k, x) for d in data for k, v in d for x in v]
     raise core.Broken(kind)
 
 
@@ -225,7 +236,14 @@ MD_ARGS = [
     ("imd", (("A", "1"),)),
     ("pairs", ()),
 ]
-MAPPING_KINDS = ("dict", "dictlist", "dicttuple", "dictset", "md", "imd")
+# argument containers in states only a history reaches (not a constructor): a key left with an empty value
+# list, falsy values, a CombinedMultiDict over such dicts.  "mdstate" data is a MultiDict representation.
+STATE_ARGS = [
+    ("mdstate", (("a", ()), ("b", ("x",)))),
+    ("mdstate", (("A", (None,)), ("b", ()))),                  # None: the falsy value of the alphabet
+    ("cmbstate", ((("a", ()), ("b", ("1",))), (("b", ()), ("A", ("x",))))),
+]
+MAPPING_KINDS = ("dict", "dictlist", "dicttuple", "dictset", "md", "imd", "mdstate", "cmbstate")
 
 
 def md_ops(keys=K, vals=V):
@@ -253,6 +271,8 @@ def md_ops(keys=K, vals=V):
         ops.append(("ior", spec))
     for spec in MD_ARGS[:7]:
         ops.append(("or", spec))
+    for spec in STATE_ARGS:
+        ops += [("update", spec), ("ior", spec), ("or", spec)]
     return ops
 
 
@@ -326,8 +346,10 @@ def _vm_spec(spec, vmap):
     if not vmap:
         return spec
     kind, data = spec
-    if kind in ("dictlist", "dicttuple", "dictset"):
+    if kind in ("dictlist", "dicttuple", "dictset", "mdstate"):
         return (kind, tuple((k, tuple(vmap[x] for x in v)) for k, v in data))
+    if kind == "cmbstate":
+        return (kind, tuple(tuple((k, tuple(vmap[x] for x in v)) for k, v in d) for d in data))
     return (kind, tuple((k, vmap[v]) for k, v in data))
 
 
@@ -1058,6 +1080,11 @@ HD_ARGS = [
 ]
 
 
+# values stay inside the alphabet ('1'/'x') so the state graph does not grow; duplicate-case Headers
+# arguments are already in HD_ARGS ("hdrs")
+HD_STATE_ARGS = [STATE_ARGS[0], ("mdstate", (("A", ("x", "1")), ("b", ())))]
+
+
 def hd_ops():
     ops = []
     for k in K:
@@ -1082,6 +1109,10 @@ def hd_ops():
         ops.append(("ior", spec))
     for spec in HD_ARGS[:8]:
         ops.append(("or", spec))
+    for spec in HD_STATE_ARGS:
+        ops += [("extend", spec), ("update", spec), ("ior", spec)]
+        if spec[0] in MAPPING_KINDS:
+            ops.append(("or", spec))
     return ops
 
 
@@ -1188,9 +1219,20 @@ def _m_first(l, k):
     return None
 
 
-def _m_update_arg(l, spec):
+def _m_update_arg(l, spec, empty_removes=True):
     kind, data = spec
-    if kind == "md":
+    if kind in ("mdstate", "cmbstate"):
+        g = {}
+        for d in ((data,) if kind == "mdstate" else data):
+            for k, v in d:
+                g.setdefault(k, []).extend(v)
+        for key, vals in g.items():
+            if vals:
+                _m_setlist(l, key, vals)
+            elif empty_removes:
+                _m_remove(l, key)                  # a key without values "replaces" the header by nothing ...
+            # ... or contributes nothing: the statement does not say
+    elif kind == "md":
         g = {}
         for k, v in data:
             g.setdefault(k, []).append(v)
@@ -1273,13 +1315,17 @@ def hd_step(lst, op):
                 l.append((k, str(x)))
         return ok()
     if n in ("update", "ior"):
+        l2 = list(l)
         _m_update_arg(l, op[1])
-        return ok()
+        _m_update_arg(l2, op[1], empty_removes=False)
+        return ok() + ([(("ok", None), l2)] if l2 != l else [])
     if n == "or":
         if op[1][0] not in MAPPING_KINDS:
             return exc("TypeError")
+        l2 = list(l)
         _m_update_arg(l, op[1])
-        return [(("ok", ("NEW", tuple(l))), list(lst))]
+        _m_update_arg(l2, op[1], empty_removes=False)
+        return [(("ok", ("NEW", tuple(l))), list(lst))] + ([(("ok", ("NEW", tuple(l2))), list(lst))] if l2 != l else [])
     if n == "update_kw":
         for k, v in op[1]:
             if isinstance(v, tuple):
